@@ -177,26 +177,42 @@ enum Outcome {
     Hang,
 }
 
+enum OutcomeB {
+    Batches(Vec<RecordBatch>),
+    Resources,
+    Error(String),
+    Hang,
+}
+
 fn run_plan(plan: Arc<dyn ExecutionPlan>, ctx: Arc<TaskContext>) -> Outcome {
+    match run_plan_batches(plan, ctx) {
+        OutcomeB::Batches(batches) => {
+            let sizes = batches.iter().map(|b| b.num_rows()).collect();
+            Outcome::Rows(rows_of(&batches), sizes)
+        }
+        OutcomeB::Resources => Outcome::Resources,
+        OutcomeB::Error(e) => Outcome::Error(e),
+        OutcomeB::Hang => Outcome::Hang,
+    }
+}
+
+fn run_plan_batches(plan: Arc<dyn ExecutionPlan>, ctx: Arc<TaskContext>) -> OutcomeB {
     let rt = tokio::runtime::Builder::new_current_thread().enable_all().build().unwrap();
     let res = hutil::catch(std::panic::AssertUnwindSafe(|| {
         rt.block_on(async { tokio::time::timeout(Duration::from_secs(60), datafusion_physical_plan::collect(plan, ctx)).await })
     }));
     match res {
-        Err(p) => Outcome::Error(format!("panic: {p}")),
-        Ok(Err(_)) => Outcome::Hang,
+        Err(p) => OutcomeB::Error(format!("panic: {p}")),
+        Ok(Err(_)) => OutcomeB::Hang,
         Ok(Ok(Err(e))) => {
             let m = e.to_string();
             if m.contains("Resources exhausted") || m.contains("ResourcesExhausted") || m.contains("Not enough memory") {
-                Outcome::Resources
+                OutcomeB::Resources
             } else {
-                Outcome::Error(m)
+                OutcomeB::Error(m)
             }
         }
-        Ok(Ok(Ok(batches))) => {
-            let sizes = batches.iter().map(|b| b.num_rows()).collect();
-            Outcome::Rows(rows_of(&batches), sizes)
-        }
+        Ok(Ok(Ok(batches))) => OutcomeB::Batches(batches),
     }
 }
 
@@ -279,11 +295,16 @@ fn source(schema: &SchemaRef, parts: &[Vec<RecordBatch>], sorted_on: Option<LexO
 /// record one judged case + oracle
 #[allow(clippy::too_many_arguments)]
 fn record(run: &mut Run, what: &str, sig: &str, opts: &[Opt], fetch: Option<usize>, inp: &[Row], outcome: Outcome, nontrivial: bool) -> Option<Vec<Row>> {
+    record_op(run, "judge", what, sig, opts, fetch, inp, outcome, nontrivial)
+}
+
+#[allow(clippy::too_many_arguments)]
+fn record_op(run: &mut Run, op: &str, what: &str, sig: &str, opts: &[Opt], fetch: Option<usize>, inp: &[Row], outcome: Outcome, nontrivial: bool) -> Option<Vec<Row>> {
     match outcome {
         Outcome::Rows(out, _) => {
             let f = fetch.map(|k| k.to_string()).unwrap_or_else(|| "none".into());
             let req = format!("({} {} {} {})", sx_opts(opts), f, sx_rows(inp), sx_rows(&out));
-            run.case("judge", &req, "ok", nontrivial);
+            run.case(op, &req, "ok", nontrivial);
             let o = oracle_judge(opts, fetch, inp, &out);
             run.oracle(o.is_ok(), &format!("{what} {sig}"), &format!("{} | input {} | output {}", o.err().unwrap_or_default(), sx_rows(inp), sx_rows(&out)));
             Some(out)
@@ -520,6 +541,632 @@ fn partial_cases(run: &mut Run, rng: &mut Rng) {
     }
 }
 
+
+// ============================================================================================
+// Typed keys: the merge has TYPE-SPECIALISED cursors for single-column keys (primitive, Utf8,
+// LargeUtf8, Binary, LargeBinary, Utf8View with an "all strings inline" fast path); multi-column
+// keys and the other types go through the row-format cursor.  Keys of these types are generated
+// here; the Lean judge sees an ORDER-PRESERVING INTEGER ENCODING computed by this harness from an
+// independent reference order (bytewise for strings/binary, false<true, numeric, f64::total_cmp):
+// per key column, rank of the value among the distinct values of that column in the case.
+// ============================================================================================
+
+#[derive(Clone, Copy, Debug, PartialEq)]
+enum KT {
+    Utf8,
+    LargeUtf8,
+    Utf8View,
+    Binary,
+    LargeBinary,
+    BinaryView,
+    Boolean,
+    Int32,
+    UInt64,
+    Float64,
+}
+const ALL_KT: &[KT] = &[KT::Utf8, KT::LargeUtf8, KT::Utf8View, KT::Binary, KT::LargeBinary, KT::BinaryView, KT::Boolean, KT::Int32, KT::UInt64, KT::Float64];
+
+#[derive(Clone, Debug)]
+enum TV {
+    Null,
+    Bytes(Vec<u8>),
+    Bool(bool),
+    I32(i32),
+    U64(u64),
+    F64(f64),
+}
+
+/// the independent reference order of non-NULL values of one type
+fn ref_cmp(a: &TV, b: &TV) -> Ordering {
+    match (a, b) {
+        (TV::Bytes(x), TV::Bytes(y)) => x.as_slice().cmp(y.as_slice()),
+        (TV::Bool(x), TV::Bool(y)) => x.cmp(y),
+        (TV::I32(x), TV::I32(y)) => x.cmp(y),
+        (TV::U64(x), TV::U64(y)) => x.cmp(y),
+        (TV::F64(x), TV::F64(y)) => x.total_cmp(y),
+        _ => unreachable!("mixed types in one column"),
+    }
+}
+
+fn show_tv(v: &TV) -> String {
+    match v {
+        TV::Null => "NULL".into(),
+        TV::Bytes(b) => match std::str::from_utf8(b) {
+            Ok(s) if s.chars().all(|c| c.is_ascii_graphic()) => format!("'{s}'"),
+            _ => hutil::hex(b),
+        },
+        TV::Bool(b) => b.to_string(),
+        TV::I32(x) => x.to_string(),
+        TV::U64(x) => x.to_string(),
+        TV::F64(x) => format!("f64:{:016x}", x.to_bits()),
+    }
+}
+
+type TRow = (Vec<TV>, i64);
+
+fn show_trows(rs: &[TRow]) -> String {
+    rs.iter().map(|(k, id)| format!("({} #{id})", k.iter().map(show_tv).collect::<Vec<_>>().join(" "))).collect::<Vec<_>>().join("")
+}
+
+const BASE12: &str = "abcdefghijkl";
+
+/// strings of length 0, 1, 4, 11, 12, 13, 40 sharing their first 4 and first 12 bytes
+fn text_pool() -> Vec<Vec<u8>> {
+    let tail28 = "mnopqrstuvwxyz0123456789ABCD";
+    let mut v: Vec<String> = vec![
+        "".into(),
+        "a".into(),
+        "b".into(),
+        "abcd".into(),
+        "abce".into(),
+        "abcdefghijk".into(),               // 11
+        BASE12.into(),                      // 12
+        "abcdefghijkm".into(),              // 12, differs at the last inline byte
+        "abcdZfghijkl".into(),              // 12, shares only the 4-byte prefix
+        format!("{BASE12}m"),               // 13
+        format!("{BASE12}n"),               // 13, differs after the 12-byte prefix
+        "abcdZZZZZZZZZ".into(),             // 13, shares only the 4-byte prefix
+        format!("{BASE12}{tail28}"),        // 40
+        format!("{BASE12}{}E", &tail28[..27]), // 40, differs at the last byte
+        format!("{BASE12}X{}", &tail28[1..]), // 40, differs at byte 13
+        format!("abcz{}", "y".repeat(36)),  // 40, different 4-byte prefix
+        "ab\u{e9}".into(),                  // non-ASCII: bytes >= 0x80 must compare unsigned
+        "abcd\u{e9}fghijk".into(),          // 12 bytes with a high byte inside the inline part
+    ];
+    v.dedup();
+    v.into_iter().map(|s| s.into_bytes()).collect()
+}
+
+fn binary_pool() -> Vec<Vec<u8>> {
+    let mut v = text_pool();
+    v.extend([vec![0x00], vec![0xff], vec![0x80], vec![0x7f], vec![0x61, 0x00], vec![0xff; 12], vec![0xff; 13], vec![0x00; 13], {
+        let mut x = BASE12.as_bytes().to_vec();
+        x.push(0x00);
+        x
+    }]);
+    v
+}
+
+#[derive(Clone, Copy, PartialEq)]
+enum Len {
+    ShortOnly, // every string fits inline (<= 12 bytes): Utf8View arrays without data buffers
+    LongOnly,
+    Mixed,
+}
+
+fn gen_tv(rng: &mut Rng, kt: KT, len: Len) -> TV {
+    if rng.chance(1, 6) {
+        return TV::Null;
+    }
+    match kt {
+        KT::Utf8 | KT::LargeUtf8 | KT::Utf8View | KT::Binary | KT::LargeBinary | KT::BinaryView => {
+            let pool = if matches!(kt, KT::Utf8 | KT::LargeUtf8 | KT::Utf8View) { text_pool() } else { binary_pool() };
+            let pool: Vec<Vec<u8>> = pool
+                .into_iter()
+                .filter(|b| match len {
+                    Len::ShortOnly => b.len() <= 12,
+                    Len::LongOnly => b.len() > 12,
+                    Len::Mixed => true,
+                })
+                .collect();
+            TV::Bytes(rng.pick(&pool).clone())
+        }
+        KT::Boolean => TV::Bool(rng.chance(1, 2)),
+        KT::Int32 => TV::I32(*rng.pick(&[i32::MIN, -1, 0, 1, 2, 2, 7, i32::MAX])),
+        KT::UInt64 => TV::U64(*rng.pick(&[0u64, 1, 2, 2, 1 << 63, (1 << 63) + 1, u64::MAX])),
+        KT::Float64 => TV::F64(*rng.pick(&[f64::NEG_INFINITY, -1.5, -0.0, 0.0, 0.5, 0.5, 2.0, 1e300, f64::INFINITY, f64::NAN])),
+    }
+}
+
+fn dt_of(kt: KT) -> DataType {
+    match kt {
+        KT::Utf8 => DataType::Utf8,
+        KT::LargeUtf8 => DataType::LargeUtf8,
+        KT::Utf8View => DataType::Utf8View,
+        KT::Binary => DataType::Binary,
+        KT::LargeBinary => DataType::LargeBinary,
+        KT::BinaryView => DataType::BinaryView,
+        KT::Boolean => DataType::Boolean,
+        KT::Int32 => DataType::Int32,
+        KT::UInt64 => DataType::UInt64,
+        KT::Float64 => DataType::Float64,
+    }
+}
+
+fn tschema(kts: &[KT]) -> SchemaRef {
+    let mut f: Vec<Field> = kts.iter().enumerate().map(|(i, kt)| Field::new(format!("c{i}"), dt_of(*kt), true)).collect();
+    f.push(Field::new("id", DataType::Int64, true));
+    Arc::new(Schema::new(f))
+}
+
+fn tarray(kt: KT, vals: &[&TV]) -> ArrayRef {
+    use arrow::array::*;
+    let bytes = |v: &TV| -> Option<Vec<u8>> {
+        match v {
+            TV::Bytes(b) => Some(b.clone()),
+            _ => None,
+        }
+    };
+    let strs: Vec<Option<String>> = vals.iter().map(|v| bytes(v).map(|b| String::from_utf8(b).unwrap_or_default())).collect();
+    let bins: Vec<Option<Vec<u8>>> = vals.iter().map(|v| bytes(v)).collect();
+    match kt {
+        KT::Utf8 => Arc::new(StringArray::from(strs)),
+        KT::LargeUtf8 => Arc::new(LargeStringArray::from(strs)),
+        KT::Utf8View => Arc::new(StringViewArray::from(strs)),
+        KT::Binary => Arc::new(BinaryArray::from(bins.iter().map(|b| b.as_deref()).collect::<Vec<_>>())),
+        KT::LargeBinary => Arc::new(LargeBinaryArray::from(bins.iter().map(|b| b.as_deref()).collect::<Vec<_>>())),
+        KT::BinaryView => Arc::new(BinaryViewArray::from(bins.iter().map(|b| b.as_deref()).collect::<Vec<_>>())),
+        KT::Boolean => Arc::new(vals.iter().map(|v| if let TV::Bool(b) = v { Some(*b) } else { None }).collect::<BooleanArray>()),
+        KT::Int32 => Arc::new(vals.iter().map(|v| if let TV::I32(x) = v { Some(*x) } else { None }).collect::<Int32Array>()),
+        KT::UInt64 => Arc::new(vals.iter().map(|v| if let TV::U64(x) = v { Some(*x) } else { None }).collect::<UInt64Array>()),
+        KT::Float64 => Arc::new(vals.iter().map(|v| if let TV::F64(x) = v { Some(*x) } else { None }).collect::<Float64Array>()),
+    }
+}
+
+fn tbatch(kts: &[KT], schema: &SchemaRef, rows: &[TRow]) -> RecordBatch {
+    let mut cols: Vec<ArrayRef> = kts.iter().enumerate().map(|(c, kt)| tarray(*kt, &rows.iter().map(|r| &r.0[c]).collect::<Vec<_>>())).collect();
+    cols.push(Arc::new(rows.iter().map(|r| Some(r.1)).collect::<Int64Array>()));
+    RecordBatch::try_new(schema.clone(), cols).unwrap()
+}
+
+fn trows_of(kts: &[KT], batches: &[RecordBatch]) -> Vec<TRow> {
+    use arrow::array::*;
+    let mut out = vec![];
+    for b in batches {
+        let ids = b.column(kts.len()).as_any().downcast_ref::<Int64Array>().unwrap();
+        for r in 0..b.num_rows() {
+            let key: Vec<TV> = kts
+                .iter()
+                .enumerate()
+                .map(|(c, kt)| {
+                    let a = b.column(c);
+                    if a.is_null(r) {
+                        return TV::Null;
+                    }
+                    let any = a.as_any();
+                    match kt {
+                        KT::Utf8 => TV::Bytes(any.downcast_ref::<StringArray>().unwrap().value(r).as_bytes().to_vec()),
+                        KT::LargeUtf8 => TV::Bytes(any.downcast_ref::<LargeStringArray>().unwrap().value(r).as_bytes().to_vec()),
+                        KT::Utf8View => TV::Bytes(any.downcast_ref::<StringViewArray>().unwrap().value(r).as_bytes().to_vec()),
+                        KT::Binary => TV::Bytes(any.downcast_ref::<BinaryArray>().unwrap().value(r).to_vec()),
+                        KT::LargeBinary => TV::Bytes(any.downcast_ref::<LargeBinaryArray>().unwrap().value(r).to_vec()),
+                        KT::BinaryView => TV::Bytes(any.downcast_ref::<BinaryViewArray>().unwrap().value(r).to_vec()),
+                        KT::Boolean => TV::Bool(any.downcast_ref::<BooleanArray>().unwrap().value(r)),
+                        KT::Int32 => TV::I32(any.downcast_ref::<Int32Array>().unwrap().value(r)),
+                        KT::UInt64 => TV::U64(any.downcast_ref::<UInt64Array>().unwrap().value(r)),
+                        KT::Float64 => TV::F64(any.downcast_ref::<Float64Array>().unwrap().value(r)),
+                    }
+                })
+                .collect();
+            out.push((key, if ids.is_null(r) { -1 } else { ids.value(r) }));
+        }
+    }
+    out
+}
+
+/// reference comparison of typed rows under the sort options (NULL placement by `nulls_first` only)
+fn tcmp(opts: &[Opt], a: &TRow, b: &TRow) -> Ordering {
+    for (i, o) in opts.iter().enumerate() {
+        let r = match (&a.0[i], &b.0[i]) {
+            (TV::Null, TV::Null) => Ordering::Equal,
+            (TV::Null, _) => if o.nf { Ordering::Less } else { Ordering::Greater },
+            (_, TV::Null) => if o.nf { Ordering::Greater } else { Ordering::Less },
+            (x, y) => if o.desc { ref_cmp(y, x) } else { ref_cmp(x, y) },
+        };
+        if r != Ordering::Equal {
+            return r;
+        }
+    }
+    Ordering::Equal
+}
+
+/// order-preserving, injective integer encoding: per key column the rank of the value among the distinct
+/// non-NULL values of that column occurring in `all`
+struct Encoder {
+    cols: Vec<Vec<TV>>,
+}
+impl Encoder {
+    fn new(nk: usize, all: &[&[TRow]]) -> Self {
+        let cols = (0..nk)
+            .map(|c| {
+                let mut v: Vec<TV> = all.iter().flat_map(|rs| rs.iter()).map(|r| r.0[c].clone()).filter(|x| !matches!(x, TV::Null)).collect();
+                v.sort_by(ref_cmp);
+                v.dedup_by(|a, b| ref_cmp(a, b) == Ordering::Equal);
+                v
+            })
+            .collect();
+        Encoder { cols }
+    }
+    fn enc(&self, rows: &[TRow]) -> Vec<Row> {
+        rows.iter()
+            .map(|(k, id)| {
+                let mut r: Row = k
+                    .iter()
+                    .enumerate()
+                    .map(|(c, v)| match v {
+                        TV::Null => None,
+                        v => Some(self.cols[c].binary_search_by(|p| ref_cmp(p, v)).expect("value is in the pool") as i64),
+                    })
+                    .collect();
+                r.push(Some(*id));
+                r
+            })
+            .collect()
+    }
+}
+
+struct TCase {
+    kts: Vec<KT>,
+    opts: Vec<Opt>,
+    schema: SchemaRef,
+}
+
+fn tshape(rng: &mut Rng, min_keys: usize) -> TCase {
+    // single-column keys take the specialised cursors: make them the majority
+    let nk = if min_keys <= 1 && rng.chance(3, 5) { 1 } else { min_keys.max(2) + rng.below(2) as usize };
+    // single-column keys: weight the string / view types, whose cursors have the intricate fast paths
+    const SINGLE: &[KT] = &[
+        KT::Utf8View, KT::Utf8View, KT::Utf8View, KT::Utf8View, KT::Utf8View, KT::Utf8, KT::Utf8, KT::Utf8, KT::LargeUtf8, KT::LargeUtf8, KT::Binary, KT::Binary,
+        KT::LargeBinary, KT::BinaryView, KT::Boolean, KT::Int32, KT::Int32, KT::UInt64, KT::UInt64, KT::Float64,
+    ];
+    let kts: Vec<KT> = (0..nk).map(|_| if nk == 1 { *rng.pick(SINGLE) } else { *rng.pick(ALL_KT) }).collect();
+    let opts = gen_opts(rng, nk);
+    let schema = tschema(&kts);
+    TCase { kts, opts, schema }
+}
+
+fn tlex(c: &TCase, n: usize) -> LexOrdering {
+    LexOrdering::new(c.opts[..n].iter().enumerate().map(|(i, o)| PhysicalSortExpr { expr: col(c.schema.field(i).name(), &c.schema).unwrap(), options: o.arrow() })).unwrap()
+}
+
+fn gen_trows(rng: &mut Rng, c: &TCase, n: usize, len: Len, id0: i64) -> Vec<TRow> {
+    (0..n).map(|i| (c.kts.iter().map(|kt| gen_tv(rng, *kt, len)).collect(), id0 + i as i64)).collect()
+}
+
+fn pick_len(rng: &mut Rng) -> Len {
+    match rng.below(6) {
+        0 | 1 => Len::ShortOnly,
+        2 => Len::LongOnly,
+        _ => Len::Mixed,
+    }
+}
+
+/// batches of random sizes; each batch draws its strings short-only / long-only / mixed, so that
+/// all-inline view arrays meet arrays with data buffers inside one merge
+fn gen_tbatches(rng: &mut Rng, c: &TCase, n: usize, maxb: usize, id0: i64) -> (Vec<TRow>, Vec<Vec<TRow>>) {
+    let mut all = vec![];
+    let mut chunks = vec![];
+    let mut i = 0;
+    while i < n {
+        let k = (1 + rng.below(maxb as u64) as usize).min(n - i);
+        let len = pick_len(rng);
+        let rows = gen_trows(rng, c, k, len, id0 + i as i64);
+        all.extend(rows.iter().cloned());
+        chunks.push(rows);
+        i += k;
+    }
+    (all, chunks)
+}
+
+fn kt_tag(c: &TCase) -> String {
+    if c.kts.len() == 1 { format!("{:?}", c.kts[0]) } else { "multi-column".into() }
+}
+
+#[allow(clippy::too_many_arguments)]
+fn trecord(run: &mut Run, what: &str, sig: &str, c: &TCase, fetch: Option<usize>, inp: &[TRow], outcome: OutcomeB, nontrivial: bool) -> Option<(Vec<Row>, Encoder)> {
+    let outcome = match outcome {
+        OutcomeB::Batches(b) => {
+            let out = trows_of(&c.kts, &b);
+            let e = Encoder::new(c.kts.len(), &[inp, &out]);
+            let (ei, eo) = (e.enc(inp), e.enc(&out));
+            // known finding: TopK's dynamic filter compares with IEEE semantics (-0.0 = +0.0) while the heap and the
+            // full sort use the total order (-0.0 < +0.0); inputs holding both zeros in a Float64 key under a fetch
+            // are recorded under their own op / signature
+            let signed_zero = fetch.is_some()
+                && c.kts.iter().enumerate().any(|(ci, kt)| {
+                    *kt == KT::Float64 && inp.iter().any(|r| matches!(r.0[ci], TV::F64(x) if x == 0.0 && x.is_sign_negative())) && inp.iter().any(|r| matches!(r.0[ci], TV::F64(x) if x == 0.0 && x.is_sign_positive()))
+                });
+            let (op, diag) = if signed_zero { ("judgez", " diag=signed-zero-under-fetch") } else { ("judge", "") };
+            if signed_zero {
+                run.count("typed:signed-zero-under-fetch");
+            }
+            let sig2 = format!("{sig}{diag} types={:?} input={} output={}", c.kts, show_trows(inp), show_trows(&out));
+            let got = record_op(run, op, &format!("{what}{}", if signed_zero { "-signed-zero" } else { "" }), &sig2, &c.opts, fetch, &ei, Outcome::Rows(eo, vec![]), nontrivial);
+            return got.map(|g| (g, e));
+        }
+        OutcomeB::Resources => Outcome::Resources,
+        OutcomeB::Error(e) => Outcome::Error(e),
+        OutcomeB::Hang => Outcome::Hang,
+    };
+    record(run, what, &format!("{sig} types={:?} input={}", c.kts, show_trows(inp)), &c.opts, fetch, &[], outcome, nontrivial);
+    None
+}
+
+fn t_nontrivial(c: &TCase, rows: &[TRow]) -> bool {
+    let mut s: Vec<&TRow> = rows.iter().collect();
+    s.sort_by(|a, b| tcmp(&c.opts, a, b));
+    rows.len() >= 2 && (s.windows(2).any(|w| tcmp(&c.opts, w[0], w[1]) == Ordering::Equal) || rows.iter().any(|r| r.0.iter().any(|v| matches!(v, TV::Null))))
+}
+
+fn typed_sort_cases(run: &mut Run, rng: &mut Rng) {
+    let n = run.budget(600, 12_000);
+    for i in 0..n {
+        let c = tshape(rng, 1);
+        let nrows = *rng.pick(&[0usize, 1, 2, 6, 20, 60, 150]);
+        let maxb = *rng.pick(&[1usize, 3, 10, 64]);
+        let (rows, chunks) = gen_tbatches(rng, &c, nrows, maxb, 0);
+        let batches: Vec<RecordBatch> = chunks.iter().map(|r| tbatch(&c.kts, &c.schema, r)).collect();
+        let fetch = if rng.chance(1, 3) { Some(*rng.pick(&[1usize, 2, 3, 7, 30, 500])) } else { None };
+        let cfg = Cfg { batch_size: *rng.pick(&[1usize, 2, 3, 7, 50, 8192]), mem_limit: None, spill_reservation: None, in_place_threshold: Some(*rng.pick(&[0usize, 1 << 20])) };
+        let plan: Arc<dyn ExecutionPlan> = Arc::new(SortExec::new(tlex(&c, c.kts.len()), source(&c.schema, &[batches], None)).with_fetch(fetch));
+        let out = run_plan_batches(plan, ctx_of(&cfg));
+        run.count(&format!("typed-sort:{}", kt_tag(&c)));
+        run.count(if fetch.is_some() { "typed-sort:topk" } else if cfg.in_place_threshold == Some(0) { "typed-sort:merge-path" } else { "typed-sort:concat-path" });
+        trecord(run, "typed-sort", &format!("#{i} opts={} fetch={fetch:?} bs={} ipt={:?}", sx_opts(&c.opts), cfg.batch_size, cfg.in_place_threshold), &c, fetch, &rows, out, t_nontrivial(&c, &rows));
+    }
+}
+
+/// k-way merge of the (reference-sorted) streams under a deliberately WRONG value comparison — used only by the
+/// per-run self-test that the generated inputs would expose such a bug in a specialised cursor
+fn merge_with(streams: &[Vec<TRow>], opts: &[Opt], bad: &dyn Fn(&[u8], &[u8]) -> Ordering) -> Vec<TRow> {
+    let mut pos = vec![0usize; streams.len()];
+    let mut out = vec![];
+    let cmp = |a: &TRow, b: &TRow| -> Ordering {
+        match (&a.0[0], &b.0[0]) {
+            (TV::Bytes(x), TV::Bytes(y)) => {
+                let r = bad(x, y);
+                if opts[0].desc { r.reverse() } else { r }
+            }
+            _ => tcmp(opts, a, b),
+        }
+    };
+    loop {
+        let mut best: Option<usize> = None;
+        for s in 0..streams.len() {
+            if pos[s] < streams[s].len() && best.map(|b| cmp(&streams[s][pos[s]], &streams[b][pos[b]]) == Ordering::Less).unwrap_or(true) {
+                best = Some(s);
+            }
+        }
+        match best {
+            Some(b) => {
+                out.push(streams[b][pos[b]].clone());
+                pos[b] += 1;
+            }
+            None => return out,
+        }
+    }
+}
+
+fn typed_spm_cases(run: &mut Run, rng: &mut Rng) {
+    let n = run.budget(800, 16_000);
+    // self-test counters: on how many single-column string/view merges would a wrong specialised comparison
+    // (a) "4-byte prefix, then length" (b) signed bytes (c) "12-byte inline part only" produce an output that the judge rejects
+    let mut detect = [0u32; 3];
+    for i in 0..n {
+        let c = tshape(rng, 1);
+        let ns = 2 + rng.below(3) as usize;
+        // every partition draws its strings with its own length class: a partition holding ONLY short
+        // strings is merged against partitions holding long ones
+        let mut streams: Vec<Vec<TRow>> = vec![];
+        for s in 0..ns {
+            let len = pick_len(rng);
+            let k = *rng.pick(&[0usize, 1, 3, 8, 25]);
+            let mut rows = gen_trows(rng, &c, k, len, 1000 * s as i64);
+            rows.sort_by(|a, b| tcmp(&c.opts, a, b));
+            streams.push(rows);
+        }
+        let parts: Vec<Vec<RecordBatch>> = streams
+            .iter()
+            .map(|s| {
+                let maxb = *rng.pick(&[1usize, 2, 5, 50]);
+                let mut out = vec![];
+                let mut j = 0;
+                while j < s.len() {
+                    let e = (j + 1 + rng.below(maxb as u64) as usize).min(s.len());
+                    out.push(tbatch(&c.kts, &c.schema, &s[j..e]));
+                    j = e;
+                }
+                out
+            })
+            .collect();
+        let fetch = if rng.chance(1, 3) { Some(*rng.pick(&[1usize, 2, 5, 20, 1000])) } else { None };
+        let rr = rng.chance(1, 2);
+        let cfg = Cfg { batch_size: *rng.pick(&[1usize, 2, 3, 7, 8192]), mem_limit: None, spill_reservation: None, in_place_threshold: None };
+        let full = tlex(&c, c.kts.len());
+        let plan: Arc<dyn ExecutionPlan> = Arc::new(SortPreservingMergeExec::new(full.clone(), source(&c.schema, &parts, Some(full))).with_fetch(fetch).with_round_robin_repartition(rr));
+        let out = run_plan_batches(plan, ctx_of(&cfg));
+        let all: Vec<TRow> = streams.iter().flatten().cloned().collect();
+        run.count(&format!("typed-spm:{}", kt_tag(&c)));
+        if c.kts.len() == 1 && matches!(c.kts[0], KT::Utf8View) {
+            // which view-cursor path the merge takes: both sides inline-only, or at least one side with data buffers
+            let inline_only: Vec<bool> = streams.iter().filter(|s| !s.is_empty()).map(|s| s.iter().all(|r| !matches!(&r.0[0], TV::Bytes(b) if b.len() > 12))).collect();
+            let k = inline_only.iter().filter(|x| **x).count();
+            run.count(if inline_only.len() < 2 {
+                "typed-spm:Utf8View:<2-nonempty-streams"
+            } else if k == inline_only.len() {
+                "typed-spm:Utf8View:all-streams-inline-only"
+            } else if k == 0 {
+                "typed-spm:Utf8View:all-streams-with-buffers"
+            } else {
+                "typed-spm:Utf8View:inline-only-vs-buffers"
+            });
+        }
+        if c.kts.len() == 1 && matches!(c.kts[0], KT::Utf8View | KT::Utf8 | KT::LargeUtf8 | KT::Binary | KT::LargeBinary) {
+            let bads: [&dyn Fn(&[u8], &[u8]) -> Ordering; 3] = [
+                &|x, y| x[..x.len().min(4)].cmp(&y[..y.len().min(4)]).then(x.len().cmp(&y.len())),
+                &|x, y| x.iter().map(|b| *b as i8).cmp(y.iter().map(|b| *b as i8)),
+                &|x, y| x[..x.len().min(12)].cmp(&y[..y.len().min(12)]),
+            ];
+            for (bi, bad) in bads.iter().enumerate() {
+                let wrong = merge_with(&streams, &c.opts, *bad);
+                let e = Encoder::new(1, &[&all]);
+                if oracle_judge(&c.opts, None, &e.enc(&all), &e.enc(&wrong)).is_err() {
+                    detect[bi] += 1;
+                }
+            }
+        }
+        let nt = t_nontrivial(&c, &all);
+        let got = trecord(run, "typed-spm", &format!("#{i} opts={} rr={rr} fetch={fetch:?} bs={} streams={ns}", sx_opts(&c.opts), cfg.batch_size), &c, fetch, &all, out, nt);
+        if let (Some((got, enc)), false) = (got, rr) {
+            // default tie rule: deterministic, must equal the model's kMerge on the encoded streams
+            let f = fetch.map(|k| k.to_string()).unwrap_or_else(|| "none".into());
+            let req = format!("({} {} ({}))", sx_opts(&c.opts), f, streams.iter().map(|s| sx_rows(&enc.enc(s))).collect::<Vec<_>>().join(" "));
+            run.case("kmerge", &req, &plain_rows(&got), nt);
+        }
+    }
+    for (name, d) in ["prefix4-then-length", "signed-bytes", "inline-12-bytes-only"].iter().zip(detect.iter()) {
+        run.add(&format!("selftest:wrong-string-compare-detectable:{name}"), *d as u64);
+        run.oracle(*d >= 5, &format!("selftest generator-sensitivity {name}"), &format!("only {d} generated string/view merges would expose a `{name}` comparison bug in a specialised cursor"));
+    }
+}
+
+fn typed_partial_cases(run: &mut Run, rng: &mut Rng) {
+    let n = run.budget(150, 4_000);
+    for i in 0..n {
+        let c = tshape(rng, 2);
+        let nk = c.kts.len();
+        let prefix = 1 + rng.below(nk as u64 - 1) as usize;
+        let nrows = *rng.pick(&[0usize, 1, 4, 15, 60]);
+        let (mut rows, _) = gen_tbatches(rng, &c, nrows, 8, 0);
+        rows.sort_by(|a, b| tcmp(&c.opts[..prefix], a, b));
+        let maxb = *rng.pick(&[1usize, 3, 10, 40]);
+        let mut batches = vec![];
+        let mut j = 0;
+        while j < rows.len() {
+            let e = (j + 1 + rng.below(maxb as u64) as usize).min(rows.len());
+            batches.push(tbatch(&c.kts, &c.schema, &rows[j..e]));
+            j = e;
+        }
+        let fetch = if rng.chance(1, 3) { Some(*rng.pick(&[1usize, 2, 5, 20, 1000])) } else { None };
+        let cfg = Cfg { batch_size: *rng.pick(&[1usize, 3, 50, 8192]), mem_limit: None, spill_reservation: None, in_place_threshold: None };
+        let plan: Arc<dyn ExecutionPlan> = Arc::new(PartialSortExec::new(tlex(&c, nk), source(&c.schema, &[batches], Some(tlex(&c, prefix))), prefix).with_fetch(fetch));
+        let out = run_plan_batches(plan, ctx_of(&cfg));
+        run.count("typed-partial");
+        trecord(run, "typed-partial", &format!("#{i} opts={} prefix={prefix} fetch={fetch:?}", sx_opts(&c.opts)), &c, fetch, &rows, out, t_nontrivial(&c, &rows));
+    }
+}
+
+fn typed_spill_cases(run: &mut Run, rng: &mut Rng) {
+    let n = run.budget(80, 2_000);
+    for i in 0..n {
+        let c = tshape(rng, 1);
+        let nrows = *rng.pick(&[300usize, 600, 1000]);
+        let maxb = *rng.pick(&[20usize, 60, 100]);
+        let (rows, chunks) = gen_tbatches(rng, &c, nrows, maxb, 0);
+        let batches: Vec<RecordBatch> = chunks.iter().map(|r| tbatch(&c.kts, &c.schema, r)).collect();
+        let cfg = Cfg {
+            batch_size: *rng.pick(&[16usize, 50, 100]),
+            mem_limit: Some(*rng.pick(&[16_000usize, 24_000, 40_000, 80_000])),
+            spill_reservation: Some(*rng.pick(&[1024usize, 2048, 4096])),
+            in_place_threshold: Some(*rng.pick(&[0usize, 4096, 1 << 20])),
+        };
+        let sort = Arc::new(SortExec::new(tlex(&c, c.kts.len()), source(&c.schema, &[batches], None)));
+        let out = run_plan_batches(sort.clone(), ctx_of(&cfg));
+        let spills = sort.metrics().and_then(|m| m.spill_count()).unwrap_or(0);
+        if matches!(out, OutcomeB::Batches(_)) {
+            run.count(if spills == 0 { "typed-spill:0-files" } else { "typed-spill:spilled" });
+            run.count(&format!("typed-spill:{}", kt_tag(&c)));
+        }
+        let sig = format!("#{i} opts={} bs={} mem={:?} resv={:?} ipt={:?} nrows={nrows}", sx_opts(&c.opts), cfg.batch_size, cfg.mem_limit, cfg.spill_reservation, cfg.in_place_threshold);
+        trecord(run, "typed-spill", &sig, &c, None, &rows, out, spills > 0);
+    }
+}
+
+/// spilled runs whose batches have ODD row counts under a budget so tight that the multi-level merge has to
+/// re-spill runs in halves (`split_spill_file_in_half`) before two streams fit
+fn odd_respill_cases(run: &mut Run, rng: &mut Rng) {
+    let n = run.budget(40, 800);
+    for i in 0..n {
+        let (_nk, nc, opts) = shape(rng);
+        let schema = schema_of(nc);
+        let odd = *rng.pick(&[3usize, 7, 13, 33, 101]);
+        let nb = *rng.pick(&[9usize, 21, 45]);
+        let dom = *rng.pick(&[3i64, 50]);
+        let rows = gen_rows(rng, odd * nb, nc, dom, 0);
+        let batches: Vec<RecordBatch> = rows.chunks(odd).map(|c| batch_of(&schema, c)).collect();
+        let cfg = Cfg {
+            batch_size: *rng.pick(&[odd, 2 * odd + 1, 101]),
+            mem_limit: Some(*rng.pick(&[5_000usize, 7_000, 9_000, 12_000, 16_000])),
+            spill_reservation: Some(*rng.pick(&[0usize, 256, 1024])),
+            in_place_threshold: Some(0),
+        };
+        let sort = Arc::new(SortExec::new(lex(&schema, &opts), source(&schema, &[batches], None)));
+        let ctx = ctx_of(&cfg);
+        let out = run_plan(sort.clone(), ctx.clone());
+        let spills = sort.metrics().and_then(|m| m.spill_count()).unwrap_or(0);
+        let ok = matches!(out, Outcome::Rows(..));
+        if ok {
+            // more spill files than input batches can only come from intermediate / halved re-spills
+            run.count(if spills > nb { "odd-respill:files>batches" } else if spills > 0 { "odd-respill:spilled" } else { "odd-respill:0-files" });
+        }
+        let sig = format!("#{i} opts={} odd={odd} nb={nb} bs={} mem={:?} resv={:?}", sx_opts(&opts), cfg.batch_size, cfg.mem_limit, cfg.spill_reservation);
+        record(run, "odd-respill", &sig, &opts, None, &rows, out, spills > 0);
+        if ok {
+            let reserved = ctx.runtime_env().memory_pool.reserved();
+            run.oracle(reserved == 0, &format!("odd-respill {sig} memory-returned"), &format!("memory_pool.reserved()={reserved} after the sort stream ended"));
+        }
+    }
+}
+
+/// TopK with >= 2 sort keys where the current k-th row has NULL in the leading key (NULLS LAST) and later
+/// batches tie on that leading NULL: the heap boundary comparison must go on to the second key
+fn topk_null_tie_cases(run: &mut Run, rng: &mut Rng) {
+    let n = run.budget(150, 3_000);
+    for i in 0..n {
+        let nk = 2 + rng.below(2) as usize;
+        let nc = nk + 1;
+        let mut opts = gen_opts(rng, nk);
+        opts[0].nf = false; // NULL is the largest leading key
+        let schema = schema_of(nc);
+        let k = 2 + rng.below(5) as usize;
+        let mut id = 0i64;
+        let mut mk = |lead: Option<i64>, rng: &mut Rng| -> Row {
+            let mut r: Row = vec![lead];
+            for _ in 1..nk {
+                r.push(if rng.chance(1, 5) { None } else { Some(rng.range(0, 6)) });
+            }
+            r.push(Some(id));
+            id += 1;
+            r
+        };
+        // first batch: k-1 rows with a non-NULL leading key and one row with a NULL leading key (the k-th)
+        let mut first: Vec<Row> = (0..k - 1).map(|_| mk(Some(rng.range(0, 3)), rng)).collect();
+        first.push(mk(None, rng));
+        let mut batches_rows = vec![first];
+        for _ in 0..(1 + rng.below(4)) {
+            let m = 1 + rng.below(6) as usize;
+            batches_rows.push((0..m).map(|_| if rng.chance(3, 4) { mk(None, rng) } else { mk(Some(rng.range(0, 3)), rng) }).collect());
+        }
+        let rows: Vec<Row> = batches_rows.iter().flatten().cloned().collect();
+        let batches: Vec<RecordBatch> = batches_rows.iter().map(|b| batch_of(&schema, b)).collect();
+        let cfg = Cfg { batch_size: *rng.pick(&[1usize, 3, 8192]), mem_limit: None, spill_reservation: None, in_place_threshold: None };
+        let plan: Arc<dyn ExecutionPlan> = Arc::new(SortExec::new(lex(&schema, &opts), source(&schema, &[batches], None)).with_fetch(Some(k)));
+        let out = run_plan(plan, ctx_of(&cfg));
+        run.count("topk:null-leading-key-boundary");
+        record(run, "topk-null-tie", &format!("#{i} opts={} k={k} rows={}", sx_opts(&opts), sx_rows(&rows)), &opts, Some(k), &rows, out, true);
+    }
+}
+
 pub fn run(run: &mut Run, args: &Args) {
     hutil::quiet_panics();
     let mut rng = Rng::new(args.seed);
@@ -529,4 +1176,10 @@ pub fn run(run: &mut Run, args: &Args) {
     spm_cases(run, &mut rng);
     partial_cases(run, &mut rng);
     spill_cases(run, &mut rng);
+    typed_sort_cases(run, &mut rng);
+    typed_spm_cases(run, &mut rng);
+    typed_partial_cases(run, &mut rng);
+    typed_spill_cases(run, &mut rng);
+    odd_respill_cases(run, &mut rng);
+    topk_null_tie_cases(run, &mut rng);
 }
